@@ -6,14 +6,14 @@ HARNESSES = [dict(name="ha", pkg="./pkg/ha/", test="TestVerifC11", timeout=900,
                   files=[("pkg/ha/zz_verif_c11_test.go", "harness/C11/zz_verif_c11_test.go"),
                          ("pkg/allocator/zz_verif_c11_alloc.go", "harness/C11/zz_verif_c11_alloc.go")])]
 # repaired first (the theorems are proved for it); one variant per recorded defect; defective = all of them together
-# repaired first (the theorems are proved for it); d_range = only Range as before bb5ec1b; d_stale_bulk = /repo HEAD since
-# 88d6de6 (stale redelivery + bulk replay); d_stale = what remains once fixes/C11_bulk_latest_live.patch is applied;
-# defective = the code before the C11 fixes
-VARIANTS = ["repaired", "d_range", "d_stale", "d_stale_bulk", "defective"]
+# repaired first; d_head = /repo HEAD since 43d3a11 (Model.head: no sequence comparison in the receiver + bulk sync always
+# from the backlog window); d_stale = what remains once fixes/C11_bulk_snapshot_when_behind.patch is applied;
+# defective = the code before all C11 fixes
+VARIANTS = ["repaired", "d_stale", "d_head", "defective"]
 # known-finding signatures = input class of the case (the generator mode is part of the case text)
 SIG = {"huge": "backlog-range-seq-ge-2^63", "stale": "stale-redelivery-applied",
        "drop": "update-drops-address-stays-reserved", "bulk": "bulk-replay-turns-delete-into-store",
-       "relall": "release-by-address-ignores-pool"}
+       "relall": "release-by-address-ignores-pool", "freshwrap": "bulk-sync-misses-sessions-older-than-backlog"}
 RULE = ("rng: ring capacities {1..9, 16, 0 and -1 (=10000)} x pushed runs of consecutive uint64 sequence numbers (fresh, wrapped "
         "1..3 times, starting at 1 / large / just below 2^63), queried with every (from,to) in a window around the retained "
         "range plus empty, inverted, far-away and (class 'huge') >= 2^63 bounds; every answer is held by the caller and read again after each of cap+1 further pushes. "
@@ -228,9 +228,13 @@ def ev_token(s, rel):
 def gen_hist(rng, mode, nops):
     cap = rng.choice([2, 3, 4, 8, 64])
     fresh = mode == "fresh"       # SRG 2's standby side is fresh: nothing is delivered until a bulk sync at the end,
-    if fresh:                     # which runs while the active node keeps renewing a session (ring exactly full)
+    wrapped = mode == "freshwrap" # which runs while the active node keeps renewing a session (ring exactly full);
+    if fresh:                     # freshwrap: the same with a backlog that has wrapped before the bulk sync
         mode = "clean"
         cap = rng.choice([2, 3, 4, 6])
+    if wrapped:
+        fresh, mode = True, "clean"
+        cap = rng.choice([2, 3, 4])
     act = Active(rng, mode)
     ops = []
     sent = {1: [], 2: []}      # per srg: list of (is_delete, key)
@@ -239,17 +243,19 @@ def gen_hist(rng, mode, nops):
         x = rng.random()
         if x < 0.55:
             sid = rng.randint(1, 7)
-            if fresh:
+            if fresh and not wrapped:
                 # every SRG-2 session gets exactly one event (so that the replayed window has one entry per session)
                 sid = rng.choice([1, 2, 3, 4, 5, 6, 7, 8, 10, 12])
                 if sid % 2 == 0 and (len(sent[2]) >= cap or sid in act.live):
                     sid = rng.choice([1, 3, 5, 7])
+            if wrapped:
+                sid = rng.choice([1, 2, 2, 3, 4, 4, 5, 6, 6, 7, 8, 10, 12])
             s = act.live.get(sid)
             if s is None:
                 s = act.fresh(sid)
                 act.live[sid] = s
                 rel = False
-            elif rng.random() < 0.3 and not (fresh and s["srg"] == 2):
+            elif rng.random() < 0.3 and not (fresh and not wrapped and s["srg"] == 2):
                 rel = True
             else:
                 rel = False
@@ -314,13 +320,22 @@ def gen_hist(rng, mode, nops):
     page = rng.choice([1, 2, 1000])
     if fresh:
         page = rng.choice([1, 1, 2])
+        while wrapped and len(sent[2]) <= cap:   # make sure the backlog has wrapped
+            sid = rng.choice([2, 4, 6, 8, 10, 12])
+            if sid not in act.live:
+                act.live[sid] = act.fresh(sid)
+            act.live[sid]["user"] = rng.choice([0, 1, 2, 3])
+            ops.append(ev_token(act.live[sid], False))
+            sent[2].append((False, (KIND[sid], sid)))
         for sid in (2, 4, 6, 8, 10, 12):          # fill the ring of SRG 2 exactly
+            if wrapped:
+                break
             if len(sent[2]) < cap and sid not in act.live:
                 act.live[sid] = act.fresh(sid)
                 ops.append(ev_token(act.live[sid], False))
                 sent[2].append((False, (KIND[sid], sid)))
         live2 = [s for s in act.live.values() if s["srg"] == 2]
-        if live2:
+        if live2 and not (wrapped and rng.random() < 0.7):
             k = rng.randint(1, 3)
             ops.append("C:2:%d:%s" % (k, ev_token(rng.choice(live2), False)[2:]))
             ops += ["D:2"] * (cap * k + 2)
@@ -344,14 +359,14 @@ def gen_hist(rng, mode, nops):
                 ops.append("R:%d:%d" % (g, k))
     if mode == "clean" and rng.random() < 0.2:
         ops.append("D:1")                      # nothing left: no-op
-    return "hist %s %d %d %s %s" % ("fresh" if fresh else mode, cap, page, " ".join(pool_tokens(mode)), " ".join(ops))
+    return "hist %s %d %d %s %s" % ("freshwrap" if wrapped else "fresh" if fresh else mode, cap, page, " ".join(pool_tokens(mode)), " ".join(ops))
 
 
 def gen_cases(rng, tier, budget):
     out = []
     gen_rng(rng, tier, out)
     n = (budget or 900) if tier == "quick" else (budget or 12000)
-    modes = ["clean"] * 3 + ["fresh", "stale", "drop", "bulk", "relall"]
+    modes = ["clean"] * 2 + ["fresh", "freshwrap", "stale", "drop", "bulk", "relall"]
     for i in range(n):
         mode = modes[i % len(modes)]
         out.append(gen_hist(rng, mode, rng.randint(12, 45)))
@@ -368,7 +383,7 @@ def nontrivial(case, out):
     if case.startswith("rng"):
         parts = out.split(" ; ")[1:]
         return any(p == "nil" for p in parts) and any(p not in ("nil", "panic") for p in parts)
-    if case.split()[1] == "fresh":
+    if case.split()[1] in ("fresh", "freshwrap"):
         return "store=[]" not in out
     return "store=[]" not in out and ":1:" in "".join(t[:14] for t in case.split() if t.startswith("E:"))
 
@@ -400,9 +415,57 @@ def classify(case, impl, model):
     return "G", "end state differs from the model: impl=%r model=%r" % (impl[:300], model[:300])
 
 
+def _triggers(case):
+    """Which recorded-finding triggers the history contains (decided from the case text alone)."""
+    t = case.split()
+    cap = int(t[2])
+    sent, m, last = {1: [], 2: []}, {1: 0, 2: 0}, {1: 0, 2: 0}
+    out = set()
+    for tok in t[4:]:
+        f = tok.split(":")
+        if f[0] == "E":
+            g = int(f[3])
+            if g in (1, 2):
+                sent[g].append((f[1], f[2]))
+        elif f[0] in ("D", "DF"):
+            g = int(f[1])
+            if m[g] < len(sent[g]):
+                m[g] += 1
+                last[g] = m[g]
+        elif f[0] in ("R", "RF", "P"):
+            g = int(f[1])
+            lo = int(f[2])
+            hi = lo if f[0] != "P" else min(int(f[3]), len(sent[g]))
+            lo = max(lo, len(sent[g]) - cap + 1) if f[0] == "P" else lo
+            for i in range(max(lo, 1), hi + 1):
+                if i <= len(sent[g]):
+                    if i < m[g]:
+                        out.add("stale")      # older than the newest delivered message (lastSeq goes backwards; the
+                                              # store changes when a later one is of the same session)
+                    m[g] = max(m[g], i)
+                    last[g] = i
+        elif f[0] in ("B", "C"):
+            g = int(f[1])
+            n = len(sent[g])
+            if n > cap and last[g] + 1 < n - cap + 1:
+                out.add("window")             # the standby is behind the retained window
+            if n:
+                m[g], last[g] = max(m[g], n), n
+            if f[0] == "C":
+                break                         # the number of events handled during the bulk sync depends on the paging
+    return out
+
+
 def signature(case, impl, models):
-    """Input class of the case; only consulted when the implementation equals one of the defect variants."""
-    return SIG.get(case.split()[1])
+    """Known-finding signature = input class, and only when the history really contains that finding's trigger."""
+    mode = case.split()[1]
+    if case.startswith("hist"):
+        trig = _triggers(case)
+        if mode == "stale":
+            return SIG["stale"] if "stale" in trig else None
+        if mode == "freshwrap":
+            return SIG["freshwrap"] if "window" in trig else None
+    return SIG.get(mode)
 
 
 def shrink(case):
